@@ -206,14 +206,14 @@ template <typename Dom> std::string run_history(const std::vector<std::string> &
     else if (op == "expand") { long x = k.nexti(), nx = k.nexti(); d.expand(c.vars[x], c.vars[nx]); }
     else if (op == "join" || op == "meet" || op == "widen" || op == "narrow" || op == "widenthr") {
       long s = k.nexti(), t = k.nexti();
-      if (op == "join") { Dom tmp = regs[s] | regs[t]; regs[r] = tmp; }
-      else if (op == "meet") { Dom tmp = regs[s] & regs[t]; regs[r] = tmp; }
-      else if (op == "widen") { Dom tmp = regs[s] || regs[t]; regs[r] = tmp; }
-      else if (op == "narrow") { Dom tmp = regs[s] && regs[t]; regs[r] = tmp; }
+      if (op == "join") { Dom tmp = regs[s] | regs[t]; regs[r] = std::move(tmp); }
+      else if (op == "meet") { Dom tmp = regs[s] & regs[t]; regs[r] = std::move(tmp); }
+      else if (op == "widen") { Dom tmp = regs[s] || regs[t]; regs[r] = std::move(tmp); }
+      else if (op == "narrow") { Dom tmp = regs[s] && regs[t]; regs[r] = std::move(tmp); }
       else {
         long n = k.nexti(); crab::thresholds<z_number> ts;
         for (long j = 0; j < n; ++j) ts.add(bound<z_number>(k.nextz()));
-        Dom tmp = regs[s].widening_thresholds(regs[t], ts); regs[r] = tmp;
+        Dom tmp = regs[s].widening_thresholds(regs[t], ts); regs[r] = std::move(tmp);
       }
     }
     else if (op == "bassign" || op == "bwassign") {
